@@ -119,6 +119,54 @@ def run_tree_groups(v, seed, n, maxlen, budget, kinds, signature, ledger_every=1
     return cov
 
 
+def run_protocol_only(v, fam, n, name, pool_extra=("1", "2", "x", "--", "--zz", "--help")):
+    """shapes the acceptors do not model: random lines over the definition's names are run with the hooks on and judged
+    by the ledger protocol alone (LedgerTrace: contiguous blocks, scopes restored, exactly-once, verdicts); a panic is a
+    violation as everywhere"""
+    hbin = build_harness()
+    rnd = random.Random(SEED * 131 + 7)
+    dpath = os.path.join(WORK, f"{name}-{v.tier}-defs.ndjson")
+    D.write_ndjson(dpath, fam)
+    cpath = os.path.join(WORK, f"{name}-{v.tier}-cases.ndjson")
+    def names(node, acc):
+        if isinstance(node, dict):
+            if node.get("kind") in ("switch", "reqflag", "arg"):
+                acc += [(x, node["kind"]) for x in node["shorts"] + node["longs"]]
+            if node.get("kind") == "cmd":
+                acc += [(x, "word") for x in node["names"]]
+            for k in ("named", "branches", "fields", "members", "head"):
+                if k in node:
+                    names(node[k], acc)
+        elif isinstance(node, list):
+            for x in node:
+                names(x, acc)
+        return acc
+    with open(cpath, "w") as w:
+        for i in range(n):
+            d = fam[i % len(fam)]
+            voc = names(d, [])
+            argv = []
+            for _ in range(rnd.randint(0, 9)):
+                r = rnd.random()
+                if r < 0.6 and voc:
+                    nm, kind = rnd.choice(voc)
+                    argv.append(nm)
+                    if kind == "arg" and rnd.random() < 0.8:
+                        argv.append(rnd.choice(["1", "2", "x"]))
+                else:
+                    argv.append(rnd.choice(pool_extra))
+            w.write(json.dumps({"def": d["id"], "argv": argv}) + "\n")
+    hooks = os.path.join(WORK, f"{name}-{v.tier}-hooks.ndjson")
+    dump = os.path.join(WORK, f"{name}-{v.tier}-obs.ndjson")
+    summ = run_replay(hbin, dpath, cpath, os.path.join(WORK, f"{name}-{v.tier}-mm.ndjson"), hooks=hooks, dump=dump)
+    for r in read_ndjson(dump):
+        if r["got"]["class"] == "panic":
+            v.report({"rule": "panic", "shape": "beyond_acceptors"}, {"def": r["def"], "argv_bytes": r["argv_bytes"], "got": r["got"]})
+    ev, runs = validate_ledger(v, hooks, cpath)
+    os.remove(hooks)
+    return {"protocol_only_runs": runs, "protocol_only_events": ev, "protocol_only_classes": summ["classes"]}
+
+
 def run_driver(v, hbin, driver, name, signature, trace_module="CmdLineTrace"):
     """driver = dict(defs=[...], n=int, maxlen=int, judge=optional)"""
     rnd = random.Random(SEED * 7919 + 13)
